@@ -774,14 +774,14 @@ impl Monitor for M {
     fn describe(&self, ctx: &Ctx) -> J {
         if !self.is_async {
             super::describe(
-                "byte streams: 0-30 reference-encoded messages of all kinds (35 %), the same truncated at every offset of the last two messages (15 %, offset walks with the case index), payload-damaged messages with intact framing (5 %), hostile length fields LEN in {0,1,2,3}, below the header size, beyond the stream, 65535 (20 %), arbitrary bytes (25 %); x storage mode x filter (none 50 %, keep, drop, level); x schedule family rotating with the case index: whole, one byte at a time, every single cut position, single cut with 1-3 Interrupted errors at the cut (and before the first byte), pairs of cut positions, fixed fragment sizes 2..17, geometric random fragments, an Interrupted error before every read, random mix of faults and fragments. The history of read_message results is compared element by element with an independently written reference framing; every 5th case also checks next_message_slice against the declared pieces; 1 in 64 uses DltMessageReader::new (10 MiB buffer). distinct = (storage mode, stream class, schedule family, filter, read-count bucket, fault-count bucket, terminal outcome, message-count bucket); non-trivial = at least one read was short or interrupted",
-                &["error results are compared by class (DltParseError variant) only", "for a declared length below 4 the framing is undefined: only 'no panic, no message' is demanded for that call and comparison stops", "capacities 65551 >= largest possible message, so the crate's debug_assert on capacity cannot be what fires"],
+                "byte streams: 0-30 reference-encoded messages of all kinds (35 %), the same truncated at every offset of the last two messages (15 %, offset walks with the case index), payload-damaged messages with intact framing (5 %), hostile length fields LEN in {0,1,2,3}, below the header size, beyond the stream, 65535 (20 %), arbitrary bytes (25 %); x storage mode x filter (none 50 %, keep, drop, level); x schedule family rotating with the case index: whole, one byte at a time, every single cut position, single cut with 1-3 Interrupted errors at the cut (and before the first byte), pairs of cut positions, fixed fragment sizes 2..17, geometric random fragments, an Interrupted error before every read, random mix of faults and fragments, bursts of consecutive faults. The history of read_message results is compared element by element with an independently written reference framing; every 5th case also checks next_message_slice against the declared pieces. 1 in 50 streams contains a message with one of the 16 largest declarable lengths; 1 in 3001 is a long history (150-1400 messages, 4-45 MiB) through one reader; schedule family fault_burst injects runs of 9..400 consecutive Interrupted errors at one offset. Readers: with_capacity(65551,65551) mostly, DltMessageReader::new (10 MiB) for 1 in 64 and half of the near-max / long streams, larger capacities, and tight capacities (message buffer = longest declared piece + 0..3, read buffer a few bytes more) for streams whose declared lengths are all known. distinct = (storage mode, stream class, schedule family, filter, read-count bucket, fault-count bucket, terminal outcome, message-count bucket); non-trivial = at least one read was short or interrupted",
+                &["error results are compared by class (DltParseError variant) only", "for a declared length below 4 the framing is undefined: only 'no panic, no message' is demanded for that call and comparison stops", "reader capacities always hold the longest declared piece of the stream they are used with (tight capacities only where every declared length is known), so the crate's debug_assert on capacity cannot be what fires"],
                 &[("history.ok", super::scaled(ctx, 50000)), ("history.messages_compared", super::scaled(ctx, 100000)), ("source.faults_injected", super::scaled(ctx, 100000)), ("cut.in_length_field", 1000), ("cut.in_storage_header", 1000), ("cut.in_body", 10000), ("fault.in_length_field", 200), ("truncated_tail.end_or_error", super::scaled(ctx, 2000)), ("short_declared_length.no_panic_no_message", super::scaled(ctx, 1000)), ("slice.ok", super::scaled(ctx, 10000))],
             )
         } else {
             super::describe(
-                "the C07 stream classes (well-formed, truncated at every offset of the last two messages, payload-damaged, hostile lengths, arbitrary) x storage mode x filter, read once by the blocking reader from an always-complete source and once by the async reader under a schedule of Poll::Pending / Ready(k): whole, one byte per poll, every single cut, single cut with 1-3 Pending at the cut and before the first byte, pairs of cuts, fixed fragments 2..17, geometric fragments, Pending before every poll, random mix; driven by a counting poll loop (a Pending must be preceded by a wake; the poll bound is inconclusive, not a violation). Histories (messages bit-exact, errors by class, end of stream) are compared element by element; every 5th case also compares next_message_slice. distinct = (storage mode, stream class, schedule family, filter, poll-count bucket, pending-count bucket, terminal outcome, message-count bucket); non-trivial = at least one short or pending poll",
-                &["the blocking reader on an always-complete source is the baseline, as the property states; where it errs the async reader must err with the same class", "at most 8 consecutive Pending results, so a correct reader always makes progress"],
+                "the C07 stream classes (well-formed, truncated at every offset of the last two messages, payload-damaged, hostile lengths, arbitrary) x storage mode x filter, read once by the blocking reader from an always-complete source and once by the async reader under a schedule of Poll::Pending / Ready(k): whole, one byte per poll, every single cut, single cut with 1-3 Pending at the cut and before the first byte, pairs of cuts, fixed fragments 2..17, geometric fragments, Pending before every poll, random mix, bursts of 9..400 consecutive Pending; the same near-max / long-history (4-45 MiB through one reader) streams and reader capacities as C07; driven by a counting poll loop: the scripted source wakes the task before every Pending it returns, so a Pending that reaches the executor without a wake-up comes from the reader and is a violation (the reader would hang under a real executor); exceeding the poll bound is inconclusive. Histories (messages bit-exact, errors by class, end of stream) are compared element by element; every 5th case also compares next_message_slice. distinct = (storage mode, stream class, schedule family, filter, poll-count bucket, pending-count bucket, terminal outcome, message-count bucket); non-trivial = at least one short or pending poll",
+                &["the blocking reader on an always-complete source is the baseline, as the property states; where it errs the async reader must err with the same class", "at most 8 consecutive Pending results outside the fault_burst family (there up to 400), so a correct reader always makes progress"],
                 &[("history.ok", super::scaled(ctx, 50000)), ("history.messages_compared", super::scaled(ctx, 100000)), ("source.pendings_injected", super::scaled(ctx, 100000)), ("pending.in_length_field", 200), ("pending.in_body", 2000), ("cut.in_storage_header", 1000), ("terminal.end_of_stream", super::scaled(ctx, 10000)), ("terminal.error", super::scaled(ctx, 5000)), ("slice.ok", super::scaled(ctx, 10000))],
             )
         }
